@@ -131,6 +131,20 @@ where
             proj_to_j(&p)
         }
         "map" => proj_to_j(&<G as MapToCurve<G>>::map_to_curve(&G::Base::from_j(&op["u"]))),
+        // homomorphism: images of p, q and of p + q (sum on the isogenous curve; the library's
+        // addition formula does not involve the curve coefficient a, so it is usable for p != +-q;
+        // the specification re-derives the sum itself)
+        "iso_hom" => {
+            let p = j_to_proj::<G>(&op["p"]);
+            let q = j_to_proj::<G>(&op["q"]);
+            let mut s = p;
+            s.add_assign(&q);
+            let (mut ip, mut iq, mut is) = (p, q, s);
+            ip.isogeny_map();
+            iq.isogeny_map();
+            is.isogeny_map();
+            json!({"sum": proj_to_j(&s), "ip": proj_to_j(&ip), "iq": proj_to_j(&iq), "is": proj_to_j(&is)})
+        }
         "map2" => proj_to_j(&<G as MapToCurve<G>>::map2_to_curve(
             &G::Base::from_j(&op["u0"]),
             &G::Base::from_j(&op["u1"]),
@@ -389,7 +403,7 @@ pub fn exec_misc(st: &mut MiscState, op: &Value) -> Value {
             }
             Value::Array(outs)
         }
-        "swu" | "iso" | "clearh" | "map" | "map2" => match g {
+        "swu" | "iso" | "clearh" | "map" | "map2" | "iso_hom" | "swu_pt" => match g {
             "G1" => exec_stage::<G1>(op),
             "G2" => exec_stage::<G2>(op),
             _ => panic!("bad group"),
